@@ -27,7 +27,10 @@ def _nw():
     """worker budget (TLC workers / pool processes); VERIF_WORKERS caps it on a shared machine"""
     return max(2, int(os.environ.get("VERIF_WORKERS", common.NCPU)))
 
-PATHS = ("parse_expression", "parse_general_expression", "general_propensity", "assignment_rule", "growth_law")
+PATHS = ("parse_expression", "parse_general_expression", "general_propensity", "assignment_rule", "growth_law",
+         # the same string compiled a second time, in the same process, for a model that declares the same
+         # species in the opposite order (ExprGen.DeclarationOrder: the meaning is attached to names, not positions)
+         "parse_expression@redeclared", "general_propensity@redeclared", "assignment_rule@redeclared")
 
 # identifier pools: underscores, digits, and the single letters that collide with sympy constants, each of
 # them once as a species and once as a parameter
@@ -185,9 +188,10 @@ def _vectors(s2i, p2i, case):
     return st, pv
 
 
-def _model(case, reaction, rule):
+def _model(case, reaction, rule, redeclared=False):
     from bioscrape.types import Model
-    return Model(species=list(case["sp"]) + ["OUTX", "RRX"], parameters=[(n, 1.0) for n in case["par"]],
+    return Model(species=(["RRX", "OUTX"] + list(reversed(case["sp"]))) if redeclared else (list(case["sp"]) + ["OUTX", "RRX"]),
+                 parameters=[(n, 1.0) for n in case["par"]],
                  reactions=[([], ["OUTX"], "general", {"rate": case["s"]})] if reaction else [],
                  rules=[("assignment", {"equation": "RRX = " + case["s"]})] if rule else [],
                  initial_condition_dict=dict({n: 0.0 for n in case["sp"]}, OUTX=0.0, RRX=0.0))
@@ -242,6 +246,24 @@ def eval_case(case):
     for path, (rx, ru), fn in ((PATHS[2], (True, False), _eval_prop), (PATHS[3], (False, True), _eval_rule)):
         try:
             mm = m if both else _model(case, rx, ru)
+            obs[path] = fn(mm, case)
+        except Exception as e:  # noqa
+            obs[path] = _exc(e)
+    # second compilation of the same string with the species declared in the opposite order
+    try:
+        n = len(case["sp"])
+        term = parse_expression(case["s"], {nm: n - 1 - i for i, nm in enumerate(case["sp"])}, p2i)
+        obs[PATHS[5]] = [float(term.py_evaluate(x[::-1].copy(), p, case["t"])), float(term.py_volume_evaluate(x[::-1].copy(), p, case["V"], case["t"]))]
+    except Exception as e:  # noqa
+        obs[PATHS[5]] = _exc(e)
+    try:
+        m2 = _model(case, True, True, redeclared=True)
+        both2 = True
+    except Exception:  # noqa
+        both2 = False
+    for path, (rx, ru), fn in ((PATHS[6], (True, False), _eval_prop), (PATHS[7], (False, True), _eval_rule)):
+        try:
+            mm = m2 if both2 else _model(case, rx, ru, redeclared=True)
             obs[path] = fn(mm, case)
         except Exception as e:  # noqa
             obs[path] = _exc(e)
@@ -323,7 +345,7 @@ def judge(rec, case, obs):
 
 # --------------------------------------------------------------------------- the check
 
-def _cfg(name, mode, depth, stack, leaves, un, bi, envs, k, r, invs=("Compositional", "UnitVolume", "Algebra", "DerivJet", "Emit")):
+def _cfg(name, mode, depth, stack, leaves, un, bi, envs, k, r, invs=("Compositional", "UnitVolume", "Algebra", "DerivJet", "DeclarationOrder", "Emit")):
     return common.make_cfg(name, spec="Spec",
                            constants={"Mode": '"%s"' % mode, "MaxDepth": str(depth), "MaxStack": str(stack),
                                       "Leaves": ("<-", leaves), "UnChoice": ("<-", un), "BinChoice": ("<-", bi),
